@@ -303,6 +303,19 @@ func c18Requests(thorough bool) map[string][]rreq {
 			tv = append(tv, rreq{Method: "POST", Path: "/totp/validate", Fields: f})
 		}
 	}
+	// an omitted field must not be guessed from the others: digits absent and the correct code of ANOTHER length
+	// (judged with the documented 6 digits: false), algorithm absent and the SHA-256/512 code, period absent and the code of a 60 s step
+	for _, d := range []int{7, 8, 9, 10, 5, 4} {
+		for a := 0; a < 3; a++ {
+			al := []string{"SHA1", "SHA256", "SHA512"}[a]
+			hv = append(hv, rreq{Method: "POST", Path: "/hotp/validate", Fields: map[string]any{"secret": u, "counter": 1, "algorithm": al, "code": ref.HOTP(restKey, 1, d, a)}},
+				rreq{Method: "POST", Path: "/hotp/validate", Fields: map[string]any{"secret": u, "counter": 1, "digits": fmt.Sprint(d), "code": ref.HOTP(restKey, 1, d, a)}},
+				rreq{Method: "POST", Path: "/hotp/validate", Fields: map[string]any{"secret": u, "counter": 1, "code": ref.HOTP(restKey, 1, d, a)}})
+			tv = append(tv, rreq{Method: "POST", Path: "/totp/validate", Fields: map[string]any{"secret": u, "timestamp": 59, "algorithm": al, "code": ref.HOTP(restKey, 1, d, a)}},
+				rreq{Method: "POST", Path: "/totp/validate", Fields: map[string]any{"secret": u, "timestamp": 59, "digits": fmt.Sprint(d), "code": ref.HOTP(restKey, 1, d, a)}},
+				rreq{Method: "POST", Path: "/totp/validate", Fields: map[string]any{"secret": u, "timestamp": 119, "digits": fmt.Sprint(d), "algorithm": al, "code": ref.HOTP(restKey, ref.Step(119, 60), d, a)}})
+		}
+	}
 	// periods of every kind (primes, powers of two, hours, days ...) x instants spread over each step: nothing between the
 	// request and the library may round, truncate or align the instant
 	for _, per := range []uint64{7, 11, 13, 14, 21, 29, 31, 45, 81, 90, 125, 512, 600, 3600, 86400, 604800} {
